@@ -135,6 +135,47 @@ fn do_replay<P: Prop>(path: &str) -> i32 {
     }
 }
 
+fn replay_supervised(id: &str, path: &str) -> i32 {
+    let Ok(exe) = std::env::current_exe() else { return 2 };
+    let Ok(mut child) = std::process::Command::new(exe)
+        .args(["replay-inner", id, path])
+        .spawn()
+    else {
+        return 2;
+    };
+    let t0 = std::time::Instant::now();
+    loop {
+        match child.try_wait() {
+            Ok(Some(st)) => return st.code().unwrap_or(2),
+            Ok(None) => {}
+            Err(_) => return 2,
+        }
+        let cpu = std::fs::read_to_string(format!("/proc/{}/stat", child.id()))
+            .ok()
+            .and_then(|s| {
+                let rest = s[s.rfind(')')? + 2..].to_string();
+                let f: Vec<&str> = rest.split_whitespace().collect();
+                Some((f.get(11)?.parse::<f64>().ok()? + f.get(12)?.parse::<f64>().ok()?) / 100.0)
+            })
+            .unwrap_or(0.0);
+        // threaded cases spin legitimately, but never for minutes on these tiny replays
+        if cpu > 120.0 {
+            let _ = child.kill();
+            let _ = child.wait();
+            println!("VIOLATION property={id} replay={path}");
+            println!("  signature=non-termination detail=the replayed case burnt more than 120 CPU seconds without finishing");
+            return 1;
+        }
+        if t0.elapsed() > std::time::Duration::from_secs(1800) {
+            let _ = child.kill();
+            let _ = child.wait();
+            println!("INCONCLUSIVE property={id} reason=replay did not finish within 30 minutes wall clock");
+            return 2;
+        }
+        std::thread::sleep(std::time::Duration::from_millis(50));
+    }
+}
+
 fn main() {
     let args: Vec<String> = std::env::args().collect();
     if args.len() < 3 {
@@ -157,6 +198,12 @@ fn main() {
             dispatch!(id, do_supervise, tier, seed)
         }
         "replay" => {
+            // the case runs in a child process so that a case that does not terminate is decided by
+            // its CPU time (as in the supervisor) instead of hanging the replay
+            let path = args.get(3).cloned().unwrap_or_default();
+            replay_supervised(id, &path)
+        }
+        "replay-inner" => {
             let path = args.get(3).cloned().unwrap_or_default();
             dispatch!(id, do_replay, &path)
         }
